@@ -464,6 +464,46 @@ def r127(report, index, lm, pm, tier):
                         cur.value, text), text, out,
                     'parsers/es5.py:_raise_syntax_error / utils.py:'
                     'format_lex_token')
+            # the look-ahead may be a semicolon the lexer made up
+            # (restricted production): built by the lexer's own
+            # _create_semi_token from the real token at that place
+            csemi = lmeth.get('_create_semi_token')
+            if csemi is not None:
+                text, toks = layout_tokens(prefix, [
+                    ('x', 'ID'), (v, t), ('return', 'RETURN'),
+                    ('\n', 'LINE_TERMINATOR')])
+                evs = Evaluator(lm, 'Lexer', lmeth, {
+                    'AutoLexToken': lambda: Obj('AutoLexToken')})
+                semi, _ = evs.call(csemi, [toks[3]], self_obj=Obj(
+                    'Lexer', newline_idx=[0], lexer=Obj(
+                        'PlyLexer', lexdata=text, lexpos=toks[3].lexpos,
+                        lineno=1)))
+                if isinstance(semi, Obj):
+                    semi.__dict__['_closed'] = True
+                lexer = Obj('Lexer', valid_prev_token=toks[1],
+                            token=('pyfunc', lambda semi=semi: semi))
+                ev = evaluator(pm, 'Parser', pmeth)
+                out = 'returns'
+                try:
+                    ev.call(rse, [toks[2]], self_obj=Obj('Parser',
+                                                         lexer=lexer))
+                except Raised as e:
+                    out = raised_text(e)
+                if not out.startswith(('ECMASyntaxError',
+                                       'ECMARegexSyntaxError')):
+                    r7.fail('_raise_syntax_error before an inserted '
+                            'semicolon, previous token %s%s' % (
+                                describe(v), ' on line 2' if prefix
+                                else ''),
+                            'Parser._raise_syntax_error at `return` of %r, '
+                            'look-ahead: the semicolon the lexer supplies '
+                            'for the line break' % text,
+                            'does not raise the syntax error: %s'
+                            % out[:160], witness=text,
+                            where='parsers/es5.py:_raise_syntax_error / '
+                            'lexers/es5.py:_create_semi_token')
+                else:
+                    r7.ok('inserted semicolon as look-ahead')
             # lexer: illegal character after v
             text, toks = layout_tokens(prefix, [('x', 'ID'), ('=', 'EQ'),
                                                 (v, t), ('#', 'error')])
